@@ -254,6 +254,13 @@ def scenario(run, rng, pv, idx):
         if not pc.wait_idle(conn, 20.0):
             return 'threads alive: ' + pc.dump_threads()
         server.join(10.0)
+        if [e for e in server.errors if e[1] == 'frame']:
+            run.violation('listeners/malformed-client-bytes', 'the client sent '
+                          'bytes the independent server cannot parse as the '
+                          'expected frame', dict(w, error=[e for e in
+                                                 server.errors if e[1] ==
+                                                 'frame'][0][2]))
+            return None
         if [e for e in server.errors if e[1] == 'script']:
             return 'server script error %r' % (server.errors[:1],)
         if rec.exceptions:
